@@ -25,6 +25,12 @@ var c12Queries = []string{
 	"SELECT * FROM (SELECT a, ASYNC.vid(a + 1) AS v FROM t WHERE a > ?) d",
 	"SELECT a, (SELECT ASYNC.vid(p) AS w FROM items) AS s FROM t WHERE a > ?",
 	"WITH c AS (SELECT a, ASYNC.vid(a) AS v FROM t), d AS (SELECT * FROM c WHERE a > ?) SELECT * FROM d",
+	// NULL (missing) operands
+	"SELECT a + zz AS s, zz * 2 AS m, -zz AS n, zz DIV 2 AS d FROM t WHERE a > ?",
+	"SELECT CASE WHEN a > ? THEN a * zz ELSE zz END AS c FROM t",
+	"SELECT ARRAY(a - zz, zz) AS arr, IF(a > ?, zz + 1, zz) AS v, (zz + 1, zz) AS tup FROM t",
+	"SELECT a, COUNT(zz) AS n, SUM(zz) AS s, MIN(zz) AS lo, AVG(zz + 1) AS av FROM t WHERE a > ? GROUP BY a",
+	"SELECT * FROM t WHERE zz + 1 IS NULL OR a > ? ORDER BY zz + 1",
 }
 
 func idFunc(q *Query, cur Map, o *FunctionOptions, args []any) (any, error) {
